@@ -1007,6 +1007,32 @@ def is_self_lists(t, me):
                   t.col_dims.ref == me.col_dims.ref)
 
 
+def _caps_validation_inv(V, i, k):
+    """the loop that validates a per-bond list of caps only reads; for an admissible list the flag stays True"""
+    yield 'max_rank_tf', zb(V['max_rank_tf']) == z3.BoolVal(True)
+    me, me0 = V['self'], V.old('self')
+    yield 'self-untouched', z3.And(is_self_lists(me, me0), wf(me), zi(me.order) == zi(me0.order), same_ints(me.ranks, me0.ranks, zi(me0.order) + 1),
+                                   same_ints(me.row_dims, me0.row_dims, zi(me0.order)), same_ints(me.col_dims, me0.col_dims, zi(me0.order)))
+
+
+def cap_at(rank, mr, j):
+    """rank (of bond j) respects the cap: a scalar cap, or entry j of a per-bond list of caps"""
+    if isinstance(mr, SList):
+        return cap_ok(rank, lst_get(mr, j))
+    return cap_ok(rank, mr)
+
+
+def caps_valid(mr, d):
+    """what the code accepts as max_rank: a positive integer / inf, or a list of order + 1 of them"""
+    if isinstance(mr, SList):
+        return z3.And(zi(mr.len_term()) == d + 1, FA(0, d + 1, lambda j: z3.Or(lst_get(mr, j).is_inf, lst_get(mr, j).val >= 1)))
+    if isinstance(mr, SMaxRank):
+        return z3.Or(mr.is_inf, mr.val >= 1)
+    if isinstance(mr, SInf):
+        return z3.BoolVal(True)
+    return zi(mr) >= 1
+
+
 def cap_ok(rank, mr):
     """rank <= max_rank (trivially true for inf)"""
     if isinstance(mr, SMaxRank):
@@ -1022,19 +1048,19 @@ class _Sweep(Contract):
     def mutated(self, A):
         return [A['self'].cores, A['self'].ranks]
 
-    def mk_common(self, ex, state):
+    def mk_common(self, ex, state, inst=None):
         m0 = ex.ctx.mark0
         thr = SNum('threshold', nonneg=z3.BoolVal(True))
-        mr = SMaxRank('max_rank')
-        state.assume(z3.Or(mr.is_inf, mr.val >= 1))
-        return mk_tt(state, 'self', m0), thr, mr
+        me = mk_tt(state, 'self', m0)
+        if inst is not None and inst.get('cap') == 'list':
+            # per-bond caps: a list of order + 1 entries, each a positive integer or inf
+            mr = SList(fresh('max_rank_ref'), zi(me.order) + 1, fn=sym_elem_fn('maxrank', state), kind='maxrank')
+        else:
+            mr = SMaxRank('max_rank')
+        return me, thr, mr
 
     def domain_extra(self, S):
-        mr = S.a.get('max_rank', INF)
-        if isinstance(mr, SMaxRank):
-            yield 'max_rank>=1', z3.Or(mr.is_inf, mr.val >= 1)
-        elif not isinstance(mr, SInf):
-            yield 'max_rank>=1', zi(mr) >= 1
+        yield 'max_rank-positive-or-inf', caps_valid(S.a.get('max_rank', INF), zi(S.a['self'].order))
 
     def modifies(self, S):
         me = S.o['self']
@@ -1048,17 +1074,20 @@ class _Sweep(Contract):
 @register
 class OrthoLeft(_Sweep):
     name, func = 'TT.ortho_left', 'ortho_left'
-    loop_ordinals = {1: 'i in range(start_index, end_index + 1)'}
+    loop_ordinals = {0: 'i in range(self.order + 1)', 1: 'i in range(start_index, end_index + 1)'}
 
     def instances(self):
-        return [{'end': 'None'}, {'end': 'given'}]
+        return [{'end': 'None'}, {'end': 'given'}, {'end': 'None', 'cap': 'list'}, {'end': 'given', 'cap': 'list'}]
+
+    def call_inst(self, A):
+        return {'cap': 'list'} if isinstance(A.get('max_rank'), SList) else {}
 
     def defaults(self):
         return {'start_index': 0, 'end_index': NONE, 'threshold': SNum('thr0', nonzero=z3.BoolVal(False), nonneg=z3.BoolVal(True)),
                 'max_rank': INF, 'progress': False, 'string': 'Left-orthonormalization'}
 
     def setup(self, ex, state, inst):
-        me, thr, mr = self.mk_common(ex, state)
+        me, thr, mr = self.mk_common(ex, state, inst)
         start = fresh('start_index')
         end = NONE if inst['end'] == 'None' else fresh('end_index')
         return {'self': me, 'start_index': start, 'end_index': end, 'threshold': thr, 'max_rank': mr, 'progress': False, 'string': 'x'}
@@ -1093,7 +1122,7 @@ class OrthoLeft(_Sweep):
             lst_get(me.cores, j).buf == lst_get(me0.cores, j).buf, *[f == g for f, g in zip(lst_get(me.cores, j).flags.values(), lst_get(me0.cores, j).flags.values())])))
         yield 'core-buffers-fresh-or-own-slot', FA(0, d, lambda j: z3.Or(lst_get(me.cores, j).buf >= S.mark0, lst_get(me.cores, j).buf == lst_get(me0.cores, j).buf))
         yield 'processed-cores-left-orthonormal', FA(0, d, lambda j: z3.Implies(z3.And(s <= j, j <= e), lst_get(me.cores, j).flags['lorth']))
-        yield 'ranks<=max_rank', FA(0, d + 1, lambda j: z3.Implies(z3.And(s < j, j <= e + 1), cap_ok(lst_get(me.ranks, j), mr)))
+        yield 'ranks<=max_rank', FA(0, d + 1, lambda j: z3.Implies(z3.And(s < j, j <= e + 1), cap_at(lst_get(me.ranks, j), mr, j)))
         yield 'positive-ranks', FA(0, d + 1, lambda j: lst_get(me.ranks, j) >= 1)
         yield 'kind', FA(0, d, lambda j: z3.Implies(z3.Not(z3.And(s <= j, j <= e + 1)), lst_get(me.cores, j).cplx == lst_get(me0.cores, j).cplx))
 
@@ -1102,6 +1131,8 @@ class OrthoLeft(_Sweep):
         return lst_get(me.ranks, 1) == lst_get(me0.ranks, 1) + 1
 
     def invariant(self, key, inst):
+        if key == 'i in range(self.order + 1)':
+            return _caps_validation_inv
         if key != 'i in range(start_index, end_index + 1)':
             return None
 
@@ -1124,7 +1155,7 @@ class OrthoLeft(_Sweep):
                 cur.buf >= V.mark0))
             yield 'buffers', FA(0, d, lambda j: z3.Or(lst_get(me.cores, j).buf >= V.mark0, lst_get(me.cores, j).buf == lst_get(me0.cores, j).buf))
             yield 'lorth', FA(0, d, lambda j: z3.Implies(z3.And(s <= j, j < i), lst_get(me.cores, j).flags['lorth']))
-            yield 'caps', FA(0, d + 1, lambda j: z3.Implies(z3.And(s < j, j <= i), cap_ok(lst_get(me.ranks, j), mr)))
+            yield 'caps', FA(0, d + 1, lambda j: z3.Implies(z3.And(s < j, j <= i), cap_at(lst_get(me.ranks, j), mr, j)))
         return inv
 
     def effect(self, ex, state, A, inst, line):
@@ -1150,16 +1181,19 @@ def sweep_effect(contract, ex, state, A, line, left):
 @register
 class OrthoRight(_Sweep):
     name, func = 'TT.ortho_right', 'ortho_right'
-    loop_ordinals = {1: 'i in range(start_index, end_index - 1, -1)'}
+    loop_ordinals = {0: 'i in range(self.order + 1)', 1: 'i in range(start_index, end_index - 1, -1)'}
 
     def instances(self):
-        return [{'start': 'None'}, {'start': 'given'}]
+        return [{'start': 'None'}, {'start': 'given'}, {'start': 'None', 'cap': 'list'}, {'start': 'given', 'cap': 'list'}]
+
+    def call_inst(self, A):
+        return {'cap': 'list'} if isinstance(A.get('max_rank'), SList) else {}
 
     def defaults(self):
         return {'start_index': NONE, 'end_index': 1, 'threshold': SNum('thr0', nonzero=z3.BoolVal(False), nonneg=z3.BoolVal(True)), 'max_rank': INF}
 
     def setup(self, ex, state, inst):
-        me, thr, mr = self.mk_common(ex, state)
+        me, thr, mr = self.mk_common(ex, state, inst)
         start = NONE if inst['start'] == 'None' else fresh('start_index')
         return {'self': me, 'start_index': start, 'end_index': fresh('end_index'), 'threshold': thr, 'max_rank': mr}
 
@@ -1193,7 +1227,7 @@ class OrthoRight(_Sweep):
             lst_get(me.cores, j).buf == lst_get(me0.cores, j).buf, *[f == g for f, g in zip(lst_get(me.cores, j).flags.values(), lst_get(me0.cores, j).flags.values())])))
         yield 'core-buffers-fresh-or-own-slot', FA(0, d, lambda j: z3.Or(lst_get(me.cores, j).buf >= S.mark0, lst_get(me.cores, j).buf == lst_get(me0.cores, j).buf))
         yield 'processed-cores-right-orthonormal', FA(0, d, lambda j: z3.Implies(z3.And(e <= j, j <= s), lst_get(me.cores, j).flags['rorth']))
-        yield 'ranks<=max_rank', FA(0, d + 1, lambda j: z3.Implies(z3.And(e <= j, j <= s), cap_ok(lst_get(me.ranks, j), mr)))
+        yield 'ranks<=max_rank', FA(0, d + 1, lambda j: z3.Implies(z3.And(e <= j, j <= s), cap_at(lst_get(me.ranks, j), mr, j)))
         yield 'positive-ranks', FA(0, d + 1, lambda j: lst_get(me.ranks, j) >= 1)
 
     def canary(self, S, res):
@@ -1201,6 +1235,8 @@ class OrthoRight(_Sweep):
         return lst_get(me.ranks, 1) == lst_get(me0.ranks, 1) + 1
 
     def invariant(self, key, inst):
+        if key == 'i in range(self.order + 1)':
+            return _caps_validation_inv
         if key != 'i in range(start_index, end_index - 1, -1)':
             return None
 
@@ -1224,7 +1260,7 @@ class OrthoRight(_Sweep):
                 cur.buf >= V.mark0))
             yield 'buffers', FA(0, d, lambda j: z3.Or(lst_get(me.cores, j).buf >= V.mark0, lst_get(me.cores, j).buf == lst_get(me0.cores, j).buf))
             yield 'rorth', FA(0, d, lambda j: z3.Implies(z3.And(i < j, j <= s), lst_get(me.cores, j).flags['rorth']))
-            yield 'caps', FA(0, d + 1, lambda j: z3.Implies(z3.And(i < j, j <= s), cap_ok(lst_get(me.ranks, j), mr)))
+            yield 'caps', FA(0, d + 1, lambda j: z3.Implies(z3.And(i < j, j <= s), cap_at(lst_get(me.ranks, j), mr, j)))
         return inv
 
     def effect(self, ex, state, A, inst, line):
@@ -1239,18 +1275,23 @@ class Ortho(Contract):
     def defaults(self):
         return {'threshold': SNum('thr0', nonzero=z3.BoolVal(False), nonneg=z3.BoolVal(True)), 'max_rank': INF}
 
+    def instances(self):
+        return [{}, {'cap': 'list'}]
+
+    def call_inst(self, A):
+        return {'cap': 'list'} if isinstance(A.get('max_rank'), SList) else {}
+
     def setup(self, ex, state, inst):
         m0 = ex.ctx.mark0
-        mr = SMaxRank('max_rank')
-        state.assume(z3.Or(mr.is_inf, mr.val >= 1))
-        return {'self': mk_tt(state, 'self', m0), 'threshold': SNum('threshold', nonneg=z3.BoolVal(True)), 'max_rank': mr}
+        me = mk_tt(state, 'self', m0)
+        if inst.get('cap') == 'list':
+            mr = SList(fresh('max_rank_ref'), zi(me.order) + 1, fn=sym_elem_fn('maxrank', state), kind='maxrank')
+        else:
+            mr = SMaxRank('max_rank')
+        return {'self': me, 'threshold': SNum('threshold', nonneg=z3.BoolVal(True)), 'max_rank': mr}
 
     def domain_extra(self, S):
-        mr = S.a.get('max_rank', INF)
-        if isinstance(mr, SMaxRank):
-            yield 'max_rank>=1', z3.Or(mr.is_inf, mr.val >= 1)
-        elif not isinstance(mr, SInf):
-            yield 'max_rank>=1', zi(mr) >= 1
+        yield 'max_rank-positive-or-inf', caps_valid(S.a.get('max_rank', INF), zi(S.a['self'].order))
 
     def modifies(self, S):
         me = S.o['self']
@@ -1270,7 +1311,7 @@ class Ortho(Contract):
         yield 'boundary-ranks-unchanged', z3.And(lst_get(me.ranks, 0) == lst_get(me0.ranks, 0), lst_get(me.ranks, d) == lst_get(me0.ranks, d))
         yield 'core-buffers-fresh-or-own-slot', FA(0, d, lambda j: z3.Or(lst_get(me.cores, j).buf >= S.mark0, lst_get(me.cores, j).buf == lst_get(me0.cores, j).buf))
         yield 'cores-1..d-1-right-orthonormal', FA(1, d, lambda j: lst_get(me.cores, j).flags['rorth'])
-        yield 'interior-ranks<=max_rank', FA(1, d, lambda j: cap_ok(lst_get(me.ranks, j), mr))
+        yield 'interior-ranks<=max_rank', FA(1, d, lambda j: cap_at(lst_get(me.ranks, j), mr, j))
         if not S.at_call:
             # ghost clause about the body (which max_rank the left sweep received): proved when TT.ortho itself is verified
             ghost = getattr(S.state, 'ghost', {}).get('ortho_left.max_rank_is_inf')
